@@ -162,6 +162,30 @@ fn int_forms(ints: &[E], bools: &[E], full: bool) -> Vec<E> {
             ));
         }
     }
+    // one operand is a LITERAL (neutral or absorbing element, or the same value):
+    // an implementation that folds `x * 0`, `x - 0`, `0 / x`, `x == 1` .. must
+    // still run the effects of `x`, once (added after seeded change C08-4)
+    for op in ops {
+        for x in ints {
+            for lit in [0, 1] {
+                out.push(bin(op, x.clone(), E::Int(lit, None, I32)));
+                out.push(bin(op, E::Int(lit, None, I32), x.clone()));
+            }
+        }
+    }
+    for x in ints {
+        // literal conditions
+        out.push(E::If(Box::new(E::Bool(true)), blk(vec![], Some(x.clone())), Some(blk(vec![], Some(em())))));
+        out.push(E::If(Box::new(E::Bool(false)), blk(vec![], Some(em())), Some(blk(vec![], Some(x.clone())))));
+        // match on a constructor written in place
+        out.push(E::Match(
+            Box::new(E::Ctor("Option".into(), "Some".into(), vec![x.clone()])),
+            vec![
+                Arm { variant: Some("Some".into()), binds: vec!["y".into()], guard: None, body: blk(vec![], Some(bin(BinOp::Add, var("y"), em()))) },
+                Arm { variant: Some("None".into()), binds: vec![], guard: None, body: blk(vec![], Some(em())) },
+            ],
+        ));
+    }
     out
 }
 
@@ -193,6 +217,29 @@ fn bool_forms(ints: &[E], bools: &[E]) -> Vec<E> {
     }
     for x in bools {
         out.push(E::Not(Box::new(x.clone())));
+    }
+    // one operand is a LITERAL: `x && false` is false, but `x` still runs; `false && x` does not run `x`
+    for op in [BinOp::And, BinOp::Or] {
+        for x in bools {
+            for lit in [true, false] {
+                out.push(bin(op, x.clone(), E::Bool(lit)));
+                out.push(bin(op, E::Bool(lit), x.clone()));
+            }
+        }
+    }
+    for op in CMP {
+        for x in ints {
+            for lit in [0, 1] {
+                out.push(bin(op, x.clone(), E::Int(lit, None, I32)));
+                out.push(bin(op, E::Int(lit, None, I32), x.clone()));
+            }
+        }
+    }
+    for x in bools {
+        for lit in [true, false] {
+            out.push(bin(BinOp::Eq, x.clone(), E::Bool(lit)));
+            out.push(bin(BinOp::Ne, E::Bool(lit), x.clone()));
+        }
     }
     out
 }
@@ -265,6 +312,12 @@ fn stmt_forms(ints: &[E], bools: &[E], bodies: &[Vec<S>]) -> Vec<Vec<S>> {
             Box::new(E::ListLit(vec![x.clone(), i0.clone()])),
             blk(vec![S::Expr(E::Host("emit_i32".into(), vec![var("v")])), S::Expr(em())], None),
         ))]);
+    }
+    for b in bodies {
+        // literal conditions: the body of `while false` / `if false` never runs, `if true` once
+        out.push(vec![S::Expr(E::While(Box::new(E::Bool(false)), blk(b.clone(), None)))]);
+        out.push(vec![S::Expr(E::If(Box::new(E::Bool(true)), blk(b.clone(), None), None))]);
+        out.push(vec![S::Expr(E::If(Box::new(E::Bool(false)), blk(b.clone(), None), Some(blk(vec![S::Expr(em())], None))))]);
     }
     for c in bools {
         for b in bodies {
